@@ -172,16 +172,23 @@ class Check:
         nw = int(os.environ.get("VERIF_WORKERS", self.spec.get("workers", 14)))
         self.failures = []
         base = 0
+        # quick tier: a fixed number of runs (the same work on any machine, however loaded; the time budget times six is
+        # only a cap), unless a budget is given explicitly. thorough tier and explicit budgets: time-boxed.
+        run_based = self.tier == "quick" and self.spec.get("quick_runs") and not os.environ.get("VERIF_BUDGET")
         for part in self.parts():
             cfgs = part["configs"][self.tier]
             per_cfg = budget * part.get("share", 1.0) / len(cfgs)
             for cfg in cfgs:
-                deadline = time.time() + per_cfg
+                deadline = time.time() + (per_cfg * 6 if run_based else per_cfg)
                 maxruns = int(os.environ.get("VERIF_MAXRUNS", "0"))
+                if run_based and not maxruns:
+                    maxruns = max(1, int(self.spec["quick_runs"] * part.get("share", 1.0) / len(cfgs)))
 
                 def jobs(part=part, cfg=cfg, base=base):
                     if part.get("jobs"):
-                        for j in part["jobs"](self, part, cfg):
+                        for n, j in enumerate(part["jobs"](self, part, cfg)):
+                            if maxruns and n >= maxruns and not part.get("enumerated"):
+                                return
                             yield j
                         return
                     i = 0
